@@ -34,9 +34,10 @@ Clause(o) ==
          ELSE IF o.got.out # o.ref.out THEN
               (CASE o.case.op = "sum" -> "AddIsConcat"
                  [] o.case.op = "resolve" -> "ResolveOrderFree"
+                 [] o.case.op = "resolve_cwd" -> "ResolveNamesMeanRegisteredPipelines"
                  [] o.case.op \in {"backend", "backend_default"} -> "BackendThenUserThenFormat"
                  [] OTHER -> "ReusedObjects")
-         ELSE IF o.case.op \in {"sum", "resolve"} /\ {<<o.vars[j][1], o.vars[j][2]>> : j \in 1..Len(o.vars)} # VarSet(ref.vars)
+         ELSE IF o.case.op \in {"sum", "resolve", "resolve_cwd"} /\ {<<o.vars[j][1], o.vars[j][2]>> : j \in 1..Len(o.vars)} # VarSet(ref.vars)
               THEN "LaterVarsOverride"
          ELSE IF o.applied # o.ref_applied THEN "AppliedAndStateAsSinglePipeline"
          ELSE ""
